@@ -19,9 +19,15 @@ def scratch():
 
 
 def apply_edits(d, edits):
-    for (rel, old, new) in edits:
+    for ed in edits:
+        rel, old, new = ed[0], ed[1], ed[2]
         p = os.path.join(d, rel)
         s = open(p).read()
+        if len(ed) > 3 and ed[3] == 'all':
+            if s.count(old) < 1:
+                raise SystemExit('edit of %s: pattern not found: %r' % (rel, old[:80]))
+            open(p, 'w').write(s.replace(old, new))
+            continue
         if s.count(old) != 1:
             raise SystemExit('edit of %s: pattern occurs %d times (need exactly 1): %r' % (rel, s.count(old), old[:80]))
         open(p, 'w').write(s.replace(old, new))
@@ -62,7 +68,7 @@ def main():
             ent = catalogue.get(a[i + 1])
             edits += ent['edits']
             if not props:
-                props = ent['expect']
+                props = ent['expect'] or ent['silent']
             i += 2
         elif a[i] == '--tier':
             tier = a[i + 1]; i += 2
